@@ -34,7 +34,19 @@ func main() {
 	}
 	w := bufio.NewWriterSize(os.Stdout, 1<<20)
 	defer w.Flush()
+	// HARNESS_FLUSH: log the input before executing it, so that a fatal runtime error
+	// (out of memory, stack exhaustion) is attributed to the input that caused it
+	flush := os.Getenv("HARNESS_FLUSH") != ""
 	run := func(in string) {
+		if flush {
+			w.WriteString(in)
+			w.WriteByte('\t')
+			w.Flush()
+			w.WriteString(safeExec(p, in))
+			w.WriteByte('\n')
+			w.Flush()
+			return
+		}
 		obs := safeExec(p, in)
 		w.WriteString(in)
 		w.WriteByte('\t')
